@@ -32,7 +32,7 @@ ASSUMPTIONS = ["differential oracle: the baseline configuration itself is judged
                "makes the schedule part inconclusive"]
 FLOORS = {'quick': {'span-func': 1500, 'evaluator2': 400, 'unnormalized': 1500, 'num_procs': 40, 'cache-size': 12, 'ops-kwargs': 100},
           'thorough': {'span-func': 15000, 'unnormalized': 15000, 'num_procs': 300, 'cache-size': 60}}
-MANDATORY_TAGS = ['span:binary', 'evaluator2', 'range:per-direction', 'range:[2.0, 5.0]', 'range:[-3.0, 7.5]', 'procs:2', 'procs:4', 'procs:8', 'voxelize-mp',
+MANDATORY_TAGS = ['trim-twin:aligned', 'trim-twin:generic', 'trim-twin:sense-detected', 'trim-twin:range-short', 'trim-twin:range-long', 'span:binary', 'evaluator2', 'range:per-direction', 'range:[2.0, 5.0]', 'range:[-3.0, 7.5]', 'procs:2', 'procs:4', 'procs:8', 'voxelize-mp',
                   'tessellate-mp', 'tessellate-mp:edit-and-retessellate', 'range-scale:short', 'range-scale:long', 'normalised-from-raw', 'raw:small-domain-start', 'cache:1', 'cache:16', 'cache:1024', 'curve', 'surface', 'volume']
 TECHNIQUE = ("runtime monitoring: cross-configuration differential oracle (same seeded query under each configuration, digests "
              "compared), event-log schedule checker for the multiprocessing pools, separate-interpreter runs for the environment-"
@@ -60,10 +60,13 @@ def gen(rng, tier, shard, nshards):
             yield {'kind': 'procs', 'seed': rng.randrange(1 << 30), 'what': 'tessellate' if (i // 5) % 2 == 0 else 'voxelize'}
         if i % 15 == 1:
             yield {'kind': 'cache', 'seed': rng.randrange(1 << 30)}
+        if i % 3 == 1:
+            yield {'kind': 'trimtwin', 'seed': rng.randrange(1 << 30)}
 
 
 def check(case, ctx):
-    return {'config': check_config, 'procs': check_procs, 'cache': check_cache, 'raw': check_normalised_from_raw}[case['kind']](case, ctx)
+    return {'config': check_config, 'procs': check_procs, 'cache': check_cache, 'raw': check_normalised_from_raw,
+            'trimtwin': check_trim_twin}[case['kind']](case, ctx)
 
 
 # -- (a) span function / evaluator / knot range ------------------------------------------------------------------------------------
@@ -229,6 +232,81 @@ def check_config(case, ctx):
     v4 = G.build(sd4)
     V = queries(v4, sd, prms, lohis, {'find_span_func': helpers.find_span_binsearch}, qseed)
     compare(V, 'normalize_kv-off+span-binary', 'unnormalized', tol=1e-8)
+
+
+def check_trim_twin(case, ctx):
+    """the trimmed tessellation of a surface and of its un-normalised twin (knot vectors and trim curves mapped affinely) are the same
+    mesh in normalised parameters - trims whose edges run along lines of the sample grid included, with the sense given or detected"""
+    from geomdl import BSpline, tessellate, trimming
+    rng = random.Random(case['seed'])
+    sd = G.rand_shape(rng, 2, rational=rng.random() < 0.3, clamped_only=True, maxextra=3, maxdeg=3, dim=3, pcls='uniform')
+    n = rng.choice([5, 5, 9, 7, 6])
+    aligned = rng.random() < 0.6
+    detect = rng.random() < 0.4
+    rev = rng.choice([0, 1])
+    if aligned:
+        # a box whose edges lie on lines of the n x n sample grid
+        g = [i / float(n - 1) for i in range(n)]
+        i0, i1 = sorted(rng.sample(range(1, n - 1), 2)) if n > 3 else (1, 1)
+        j0, j1 = sorted(rng.sample(range(1, n - 1), 2)) if n > 3 else (1, 1)
+        box = [[g[i0], g[j0]], [g[i1], g[j0]], [g[i1], g[j1]], [g[i0], g[j1]], [g[i0], g[j0]]]
+    else:
+        a_, b_ = sorted([round(rng.uniform(0.12, 0.88), 3) for _ in range(2)])
+        c_, d_ = sorted([round(rng.uniform(0.12, 0.88), 3) for _ in range(2)])
+        if b_ - a_ < 0.15 or d_ - c_ < 0.15:
+            raise Reject()
+        box = [[a_, c_], [b_, c_], [b_, d_], [a_, d_], [a_, c_]]
+    if rng.random() < 0.5:
+        box.reverse()
+    lohi = rng.choice([(0.0, 200.0), (1000.0, 5000.0), (0.0, 2.0 ** -7), (0.0, 0.001), (0.0, 2.0 ** 20), (-3.0, 7.5), (2.0, 5.0)])
+    ctx.tag('trim-twin', 'trim-twin:aligned' if aligned else 'trim-twin:generic', 'trim-twin:sense-detected' if detect else 'trim-twin:sense-given',
+            'trim-twin:range-%s' % ('short' if lohi[1] - lohi[0] < 0.1 else 'long' if lohi[1] - lohi[0] > 100 else 'moderate'))
+    ctx.nontriv(True)
+
+    def build(norm, lh):
+        sdx = dict(sd, normalize_kv=norm, kvs=[[amap(k, lh) for k in kv] for kv in sd['kvs']]) if not norm else dict(sd)
+        o = G.build(sdx)
+        o.sample_size = n
+        (u0, u1), (v0, v1) = o.domain
+        t = BSpline.Curve()
+        t.degree = 1
+        t.ctrlpts = [[u0 + (u1 - u0) * q[0], v0 + (v1 - v0) * q[1]] for q in box]
+        t.knotvector = [0.0, 0.0, 0.25, 0.5, 0.75, 1.0, 1.0]
+        t.sample_size = 21
+        if not detect:
+            t.opt = ['reversed', rev]
+        o.trims = [t]
+        if detect:
+            trimming.fix_trim_curves(o)
+        o.tessellator = tessellate.TrimTessellate()
+        o.tessellate()
+        tris = []
+        area = 0.0
+        for f in o.faces:
+            q = [((v.uv[0] - u0) / (u1 - u0), (v.uv[1] - v0) / (v1 - v0)) for v in f.vertices]
+            area += abs((q[1][0] - q[0][0]) * (q[2][1] - q[0][1]) - (q[2][0] - q[0][0]) * (q[1][1] - q[0][1])) / 2.0
+            tris.append(tuple(sorted((round(x, 7), round(y, 7)) for x, y in q)))
+        sense = [(c.opt_get('reversed') if hasattr(c, 'opt_get') else None) for c in o.trims]
+        return sorted(tris), area, sense, len(o.trims)
+    try:
+        with so.quiet():
+            T0, A0, s0, k0 = build(True, (0.0, 1.0))
+    except Exception:
+        raise Reject()       # the baseline itself fails: the owning property (C15) judges that
+    try:
+        with so.quiet():
+            T1, A1, s1, k1 = build(False, lohi)
+    except Exception as e:
+        ctx.fail('trim-twin/fails-where-baseline-succeeds', 'trimmed tessellation on the knot range %r raised %s: %s; the normalised twin '
+                 'succeeds' % (lohi, type(e).__name__, e))
+        return
+    # the same region is kept (parametric area); the same triangles unless trim edges run along grid lines (there the rounding of
+    # the affine map decides on which side of a grid line a trim vertex lies: slivers of zero area may differ, the region may not)
+    ok = k0 == k1 and s0 == s1 and abs(A0 - A1) <= 1e-6 and (aligned or T0 == T1)
+    ctx.check(ok, 'trim-twin/differs', 'trimmed tessellation (%s trim %r, sample size %d, sense %s) on the knot range %r: %d trims, senses %r, '
+              '%d faces, parametric area %.6f; normalised twin: %d trims, senses %r, %d faces, area %.6f'
+              % ('grid-aligned' if aligned else 'generic', box[:4], n, 'detected' if detect else 'given %d' % rev, lohi, k1, s1, len(T1), A1,
+                 k0, s0, len(T0), A0), what='trim-twin')
 
 
 def check_normalised_from_raw(case, ctx):
